@@ -125,6 +125,21 @@ class Interp:
                 raise PathLimit(f"more than {self.max_paths} paths in {ref}")
         return runs
 
+    def prefix_closure(self, mod: Module, outer_qual: str, nested_name: str, env: Dict[str, Any]) -> Dict[str, Any]:
+        """the free variables a nested function sees: the enclosing function's top-level statements in front of the nested `def` are executed on `env`
+        (use inside a closure_factory; hooks and decisions apply as usual)"""
+        outer = mod.func(outer_qual)
+        idx = next((i for i, st in enumerate(outer.body) if isinstance(st, (ast.FunctionDef, ast.AsyncFunctionDef)) and st.name == nested_name), None)
+        if idx is None:
+            raise AnalysisError(f"anchor vanished: {nested_name} is not defined at the top level of {outer_qual}")
+        act = Activation(mod, outer, dict(env), None, outer_qual)
+        self.stack.append(act)
+        try:
+            self.exec_block(outer.body[:idx])
+        finally:
+            self.stack.pop()
+        return act.env
+
     def new_id(self) -> int:
         return next(self._ids)
 
@@ -169,10 +184,14 @@ class Interp:
         t = to_term(v)
         if T.is_const(t):
             return T.C(bool(t[1]))
-        if t[0] in ("cmp", "eq", "ne", "and", "or", "not", "in", "truthy", "cmpx", "hascol", "isnull", "isinstance", "strmatch", "notnull", "dtypetest"):
+        if t[0] in ("cmp", "eq", "ne", "and", "or", "not", "in", "truthy", "cmpx", "hascol", "isnull", "isinstance", "strmatch", "notnull", "dtypetest", "overlap"):
             return t
         if t[0] == "re":
             return T.cmp("!=", t, T.NONE)
+        if t[0] == "intersection" and len(t) == 3:
+            return ("overlap", t[1], t[2])          # a non-empty intersection: the two collections share an element
+        if t[0] == "overlap":
+            return t
         return ("truthy", t)
 
     # ------------------------------------------------------------------ calls
